@@ -366,6 +366,126 @@ theorem reads_conform (w : World Val) (c : Cfg) (ops : List (Op Val))
     ∀ v, Out.val v ∈ (run w c St.init ops).2 → w.conforms v = true :=
   run_vals_conform hs hm ops (inv_init w c)
 
+/-! ## The instance as a whole: copies, copies of copies, helpers of other attributes
+
+`Obj` / `OOp` / `ostep` / `orun` (in `Model/C12.lean`): the property operations interleaved with `copy.deepcopy`,
+the copy-on-write helpers of ANOTHER attribute (`with_y`, `update_y`, `reset_y`, `obj.y = v`) and the copy-on-write
+forms of assignment and deletion of the property itself (`with_x`, `reset_x`). `project` says what each of them is in
+terms of the protocol (`none`: nothing). -/
+
+/-- **A copy carries every entry of the instance dict** — the property's slot (override or cached value), the
+state the getter reads, the accessor log, the other attribute. -/
+theorem deepcopy_keeps_everything (o : Obj Val) : deepcopyObj o = o := deepcopyObj_eq o
+
+/-- `obj.with_x(v)` / `obj.reset_x()` are `obj.x = v` / `del obj.x` performed on a copy: same resulting protocol
+state, same result (value delivered through the preparer and type check, AttributeError when neither overridable nor a
+setter, AttributeError when there is nothing to delete), the other attribute untouched. -/
+theorem cow_forms (w : World Val) (c : Cfg) (o : Obj Val) (v : Val)
+    (hs : c.onSpecClass = true) (hm : c.managed = true) :
+    ((withSelf w c o v).1.st = (assign w c o.st v).1 ∧ (withSelf w c o v).2.1 = (assign w c o.st v).2 ∧
+      (withSelf w c o v).1.other = o.other) ∧
+    ((resetSelf c o).1.st = (pdelete c o.st).1 ∧ (resetSelf c o).2.1 = (pdelete c o.st).2 ∧
+      (resetSelf c o).1.other = o.other) :=
+  ⟨withSelf_eq_assign w c o v hs hm, resetSelf_eq_delete c o⟩
+
+/-- **Histories with copies.** Whatever mixture of protocol operations, deep copies, helpers of the other attribute
+and copy-on-write assignments / deletions an instance (an n-th generation copy) has been through: its protocol
+state is the one the projected protocol operations alone produce on one instance, and the protocol operations gave,
+output for output, what they give there. -/
+theorem instance_history_projects (w : World Val) (c : Cfg) (y : Other Val) (ops : List (OOp Val)) :
+    (orun w c y (Obj.init c y) ops).1.st = (run w c St.init (ops.filterMap (project c))).1 ∧
+    propOuts c ops (orun w c y (Obj.init c y) ops).2 = (run w c St.init (ops.filterMap (project c))).2 :=
+  orun_project w c y ops (Obj.init c y)
+
+/-- **Read rule on any generation of copy.** After any such history a read returns the user override if one is set,
+otherwise the value cached since the last deletion, otherwise the (prepared, checked) getter result on current state —
+override / cached being what the specification machine reached on the projected history: copies and operations on
+other attributes are neither deletions nor assignments. -/
+theorem copies_follow_protocol (w : World Val) (c : Cfg) (y : Other Val) (ops : List (OOp Val)) :
+    (pget w c (orun w c y (Obj.init c y) ops).1.st).2 =
+      match (Spec.run w c Ghost.init (ops.filterMap (project c))).1.override,
+            (Spec.run w c Ghost.init (ops.filterMap (project c))).1.cached with
+      | some v, _ => .val v
+      | none, some v => .val v
+      | none, none => getterChecked w c (orun w c y (Obj.init c y) ops).1.st.under := by
+  rw [(instance_history_projects w c y ops).1]
+  exact read_protocol w c (ops.filterMap (project c))
+
+/-- Operations that are nothing to the protocol can be erased from (or inserted into) any history. -/
+theorem other_attribute_ops_invisible (w : World Val) (c : Cfg) (y : Other Val) (o : Obj Val)
+    (ops : List (OOp Val)) :
+    (orun w c y o ops).1.st = (orun w c y o (ops.filter fun op => (project c op).isSome)).1.st := by
+  have hfm : ∀ l : List (OOp Val),
+      (l.filter fun op => (project c op).isSome).filterMap (project c) = l.filterMap (project c) := by
+    intro l
+    induction l with
+    | nil => rfl
+    | cons a l ih =>
+      cases ha : project c a with
+      | none => simp [List.filter_cons, List.filterMap_cons, ha, ih]
+      | some p => simp [List.filter_cons, List.filterMap_cons, ha, ih]
+  rw [(orun_project w c y ops o).1, (orun_project w c y _ o).1, hfm]
+
+/-- **An override survives copies of copies.** After a successful assignment — in place (`obj.x = v`) or in
+copy-on-write form (`obj.with_x(v)`) — on an overridable property without custom setter, every later read returns the
+delivered value: on the instance, on a copy, on a copy of a copy made by a helper for another attribute, whatever the
+underlying state does — until the next assignment or deletion of the property. -/
+theorem override_survives_copies (w : World Val) (c : Cfg) (y : Other Val)
+    (ho : c.overridable = true) (hs : c.hasSetter = false) (o : Obj Val) (first : OOp Val) (v v' : Val)
+    (hfirst : project c first = some (.assign v)) (hd : delivered w c v = .deliver v')
+    (more : List (OOp Val))
+    (hm : ∀ op ∈ more, project c op = none ∨ op = .prop .read ∨ op = .prop .bump) :
+    (ostep w c y o first).2.1 = .done ∧
+    (pget w c (orun w c y (ostep w c y o first).1 more).1.st).2 = .val v' := by
+  have hstep := ostep_project w c y o first
+  simp only [hfirst] at hstep
+  have hmore : ∀ p ∈ more.filterMap (project c), p = Op.read ∨ p = Op.bump := by
+    intro p hp
+    obtain ⟨a, ha, hpa⟩ := List.mem_filterMap.mp hp
+    rcases hm a ha with h | h | h
+    · rw [h] at hpa; cases hpa
+    · subst h; cases hpa; exact Or.inl rfl
+    · subst h; cases hpa; exact Or.inr rfl
+  have hov := override_stable w c ho hs o.st v v' hd (more.filterMap (project c)) hmore
+  refine ⟨by rw [hstep.2 _ rfl]; exact hov.1, ?_⟩
+  rw [(orun_project w c y more _).1, hstep.1]
+  exact hov.2
+
+/-- **A cached value survives copies of copies.** With caching on, once a read (on any generation of copy) has
+produced a non-sentinel value, every later read — on that instance or on any copy made afterwards, by `deepcopy` or by
+a helper of another attribute — returns that value however the underlying state is bumped, until an assignment or
+deletion of the property. -/
+theorem cache_survives_copies (w : World Val) (c : Cfg) (y : Other Val) (hc : c.cache = true)
+    (ops : List (OOp Val)) (v : Val)
+    (hv : (ostep w c y (orun w c y (Obj.init c y) ops).1 (.prop .read)).2.1 = .val v)
+    (hns : isSentinel w v = false) (more : List (OOp Val))
+    (hm : ∀ op ∈ more, project c op = none ∨ op = .prop .read ∨ op = .prop .bump) :
+    (pget w c (orun w c y (ostep w c y (orun w c y (Obj.init c y) ops).1 (.prop .read)).1 more).1.st).2 =
+      .val v := by
+  have hmore : ∀ p ∈ more.filterMap (project c), p = Op.read ∨ p = Op.bump := by
+    intro p hp
+    obtain ⟨a, ha, hpa⟩ := List.mem_filterMap.mp hp
+    rcases hm a ha with h | h | h
+    · rw [h] at hpa; cases hpa
+    · subst h; cases hpa; exact Or.inl rfl
+    · subst h; cases hpa; exact Or.inr rfl
+  have h0 := (instance_history_projects w c y ops).1
+  rw [(orun_project w c y more _).1]
+  simp only [ostep, step] at hv ⊢
+  rw [h0] at hv ⊢
+  exact cache_hit_stable w c hc (ops.filterMap (project c)) v hv hns _ hmore
+
+/-- **A helper that raises changes nothing**: no new instance is returned and the current one (slot, underlying state,
+accessor log, other attribute) is exactly what it was — `with_x` on a property that is neither overridable nor has a
+setter, `reset_x` with nothing stored, an ill-typed value, a raising preparer, a helper that does not exist. -/
+theorem failed_helper_changes_nothing (w : World Val) (c : Cfg) (y : Other Val) (o : Obj Val) (op : OOp Val) :
+    ((∃ e, (ostep w c y o op).2.1 = .err e) ∨ (ostep w c y o op).2.1 = .nested) →
+      (ostep w c y o op).1 = o ∧ (ostep w c y o op).2.2 = false := by
+  intro h
+  apply ostep_failed_unchanged
+  · intro v hv; rcases h with ⟨e, he⟩ | he <;> rw [hv] at he <;> cases he
+  · intro hd; rcases h with ⟨e, he⟩ | he <;> rw [hd] at he <;> cases he
+
 /-! ## Where the property is declared (inheritance × property-backed attributes) -/
 
 /-- **Managed means: some spec class of the chain annotates it.** Which class of
@@ -714,7 +834,7 @@ section Examples
 1000; negative numbers do not conform; sentinels are -1, -2, -3. -/
 def exW : World Int :=
   { getter := fun n => .ok (10 + n), preparer := fun v => .ok (v + 1000),
-    conforms := fun v => decide (0 ≤ v), construct := 0, missing := -1, empty := -2, unchanged := -3 }
+    conforms := fun v => decide (0 ≤ v), construct := .ok 0, missing := -1, empty := -2, unchanged := -3 }
 
 def exC (ov ca fs fd : Bool) : Cfg :=
   { overridable := ov, cache := ca, hasSetter := fs, hasDeleter := fd, onSpecClass := true,
@@ -778,6 +898,27 @@ example : resolveMI [⟨true, true, false, false⟩] [⟨true, false, true, true
 -- the hypothesis of `inherited_reads_conform` holds for the mixin layout, and the read is prepared
 example : (run exW (layoutCfg ⟨true, true, false, false, true, true⟩ [mixin, ⟨true, false, true, true⟩])
     St.init [.read, .bump, .read]).2 = [.val 1010, .done, .val 1010] := by decide
+
+-- copies: an override assigned in place survives a helper of another attribute and a copy of that copy; a cached
+-- value survives as well (the bump in between would otherwise show: 1011); `with_x` is assignment on a copy
+def exY : Other Int := { dflt := 0, construct := 0, conforms := fun v => decide (0 ≤ v) }
+
+example : (orun exW (exC true true false false) exY (Obj.init (exC true true false false) exY)
+    [.prop (.assign 5), .withOther 7, .copy, .prop .read, .resetOther, .prop .bump, .prop .read]).2 =
+    [.done, .done, .done, .val 1005, .done, .done, .val 1005] := by decide
+example : (orun exW (exC false true false false) exY (Obj.init (exC false true false false) exY)
+    [.prop .read, .withOther 7, .prop .bump, .copy, .prop .read, .resetSelf, .prop .read, .withSelf 5]).2 =
+    [.val 1010, .done, .done, .done, .val 1010, .done, .val 1011, .err .attributeError] := by decide
+example : (orun exW (exC true false false false) exY (Obj.init (exC true false false false) exY)
+    [.withSelf 5, .withOther 7, .withOther (-4), .setOther 8, .prop .read]).1 =
+    ⟨⟨some 1005, 0, []⟩, some 8⟩ := by decide
+-- the hypotheses of `override_survives_copies` / `cache_survives_copies` are satisfiable
+example : project (Val := Int) (exC true true false false) (.withSelf 5) = some (.assign 5) := by decide
+example : delivered exW (exC true true false false) 5 = .deliver 1005 := by decide
+example : project (Val := Int) (exC true true false false) (.withOther 7) = none := by decide
+-- a constructor that raises (`typing.Union()`): a getter result MISSING makes the read raise that, nothing is cached
+example : (run { exW with getter := fun _ => .ok (-1), construct := .error .typeError }
+    (exC false true false false) St.init [.read, .read]) = (St.init, [.err .typeError, .err .typeError]) := by decide
 
 -- classproperty over three classes (0 > 1 > 2): per-subclass caches are independent…
 def exCW : CWorld Nat Int := { getter := fun k n => .ok (100 * (k + 1) + n) }
